@@ -1,8 +1,8 @@
 #!/verif/.venv/bin/python
 # Replay of a solver counterexample against the unmodified code (no shims).
-# property=C16 kernel=pulse label=k4:arb_phase_reproduced
+# property=C16 kernel=values label=k2:neg
 import sys
 sys.path[:0] = ['/repo' + "/pulser-core", '/repo' + "/pulser-simulation", "/verif"]
 from symx.replay import replay
-sys.exit(replay(check='checks.c16', kernel='pulse', shape={'what': 'arb', 'kind': 'custom', 'n': 3},
-                assignment={'phi0': '-17422457186355534183439796194906589827615331/1045343946689685696602890804721280880738304', 'phi1': '-4355614296588883500525230813168986461775123031/130667993336210712075361350590160110092288000', 'phi2': '-50/1'}, label='k4:arb_phase_reproduced'))
+sys.exit(replay(check='checks.c16', kernel='values', shape={'cls': 'interp', 'dur': 21, 'values': [0.0, 2.0, 1.0], 'kw': {'times': [0.0, 1.0, 0.5], 'interpolator': 'interp1d'}},
+                assignment={}, label='k2:neg'))
